@@ -910,6 +910,14 @@ func parseNumberLiteral(literal string) (value interface{}, err error) {
 
 	parseIntErr := err // Save this first error, just in case
 
+	if err.(*strconv.NumError).Err == strconv.ErrRange && len(literal) > 1 && literal[0] == '0' && isDecimalDigit(rune(literal[1])) {
+		// A legacy octal literal beyond the int64 range: round the exact value once (ParseFloat below would read the digits as decimal)
+		if bigInt, ok := new(big.Int).SetString(literal[1:], 8); ok {
+			f, _ := new(big.Float).SetInt(bigInt).Float64()
+			return f, nil
+		}
+	}
+
 	value, err = strconv.ParseFloat(literal, 64)
 	if err == nil {
 		return
